@@ -11,8 +11,10 @@ CLAIMED = {
              'every run by an exhaustive/edge correspondence sweep through the real write_struct and by generated-'
              'table obligations (repcode numbers, struct formats, UVARI offsets, dispatch table).',
         note='Trusted: Lean kernel; axioms propext/Classical.choice/Quot.sound at most; the correspondence harness; '
-             'CPython struct/str.encode/datetime.astimezone are modelled, not verified. FSINGL from a Python float '
-             '(double->single rounding) and str() of non-str values are outside the model.',
+             'CPython struct/str.encode/datetime.astimezone are modelled, not verified. FSINGL from a Python float is '
+             'modelled on bit patterns (f64ToF32: round to nearest even, OverflowError beyond the range; theorems '
+             'fsingl_*; NaN payload rule of the conversion instruction taken as given); str() of non-str values is '
+             'outside the model.',
         technique='Lean 4 proof (round-trip + domain theorems) + differential correspondence with write_struct',
         design='§5 C06'),
 }
